@@ -1,10 +1,40 @@
-From TFL Require Export Harness.Compare Model.LinearEval.
+From TFL Require Export Harness.Compare Model.LinearEval Model.LinearLayer.
 Open Scope Q_scope.
-(* One Linear layer (units, kernel K[i][u], bias per unit, per-dimension
+(* mk: one Linear layer (units, kernel K[i][u], bias per unit, per-dimension
    optional bounds), a batch of input points (each point: one row per unit) and
-   the implementation's outputs for them. *)
-Record case := mk { c_units : nat; c_K : list (list Q); c_bias : list Q; c_bs : list bound;
-                    c_pts : list (list (list Q)); c_outs : list (list Q) }.
+   the implementation's outputs for them.
+   mkP: a configured layer (monotonicities, dominances, bounds, normalization)
+   whose REAL kernel constraint was applied to the raw kernel W before the
+   call: the implementation's constrained kernel and its outputs; the model
+   projects W itself (Model/LinearProject.v) and evaluates Linear.call
+   (Model/LinearLayer.v) with the projected kernel. *)
+Inductive case :=
+| mk (units : nat) (K : list (list Q)) (bias : list Q) (bs : list bound)
+     (pts : list (list (list Q))) (outs : list (list Q))
+| mkP (cfg : lin_cfg) (units : nat) (W : list (list Q)) (bias : option (list Q))
+      (pts : list (list (list Q))) (kern : list (list Q)) (outs : list (list Q)).
 Definition tol : Q := 1 # 1000000000.
+
+Definition as_input (units : nat) (pt : list (list Q)) : lin_input :=
+  if (units =? 1)%nat then In1 (hd [] pt) else InN pt.
+Fixpoint calls_close (units : nat) (K : list (list Q)) (bias : option (list Q)) (bs : list bound)
+         (pts : list (list (list Q))) (outs : list (list Q)) : bool :=
+  match pts, outs with
+  | [], [] => true
+  | p :: pts', o :: outs' =>
+      opt_close (qlist_close tol) (linear_call units K bias bs (as_input units p)) (Some o)
+      && calls_close units K bias bs pts' outs'
+  | _, _ => false
+  end.
+
 Definition check (c : case) : bool :=
-  qmat_close tol (map (linear_eval (c_units c) (c_K c) (c_bias c) (c_bs c)) (c_pts c)) (c_outs c).
+  match c with
+  | mk units K bias bs pts outs =>
+      qmat_close tol (map (linear_eval units K bias bs) pts) outs
+      && calls_close units K (Some bias) bs pts outs
+  | mkP cfg units W bias pts kern outs =>
+      match lin_project qsqrt cfg units W with
+      | Some R => qmat_close tol R kern && calls_close units R bias (layer_bounds cfg (length W)) pts outs
+      | None => false
+      end
+  end.
